@@ -98,6 +98,8 @@ def plan(tier):
     gi = len(G) - 2
     sh = []
     cfgs = []
+    cfgs.append(dict(pruning_size=0, use_beta=False))       # nothing admitted: every sentence must fail
+    cfgs.append(dict(pruning_size=0, use_beta=True, beta=0.01))
     for ps in (1, 2, 3):
         cfgs.append(dict(pruning_size=ps, use_beta=False))
         for beta in (0.5, 0.2, 0.01, 1e-8):
